@@ -19,7 +19,8 @@ AttrChoicesFull == {
     << [a |-> "const", n |-> "id", v |-> "k1"], [a |-> "spread", m |-> "M2"] >>,
     << [a |-> "class2"] >>,
     << [a |-> "cssclass"] >>,
-    << [a |-> "scriptcall"], [a |-> "const", n |-> "title", v |-> "k1"] >>,
+    << [a |-> "scriptcall", n |-> "onclick"], [a |-> "const", n |-> "title", v |-> "k1"] >>,
+    << [a |-> "scriptcall", n |-> "onclick"], [a |-> "scriptcall", n |-> "onfocus"] >>,
     << [a |-> "url", u |-> "U1"] >>,
     << [a |-> "const", n |-> "title", v |-> "k1"], [a |-> "url", u |-> "U2"] >>,
     << [a |-> "style", e |-> "T1"] >>,
